@@ -505,6 +505,9 @@ def _array(e, st, node, x, dtype=None, copy=None):
         if node.func.attr == 'asarray' and not a.meta.get('list') and isinstance(x, Ref):
             return x       # asarray of an ndarray is the same object
         return e.new_obj(st, Arr(a.term, a.shape, a.kind, a.init, meta))
+    if isinstance(a, Tup) and a.items and isinstance(a.items[0], Opaque) and a.items[0].tag == 'repeat-rows':
+        row, cnt = e.deref(st, a.items[1]), to_z3(a.items[2])
+        return e.new_obj(st, e.lam(lambda i, j: row[j], (cnt, row.shape[0]), row.kind))      # np.array([row] * n): n equal rows
     if isinstance(a, Tup) and a.items and isinstance(a.items[0], Opaque) and a.items[0].tag == 'product':
         # np.array(list(itertools.product(xs, ys))): row p*len(ys)+q is the pair (xs[p], ys[q])   (trusted)
         (n1, g1), (n2, g2) = seq_view(e, st, a.items[1]), seq_view(e, st, a.items[2])
@@ -1042,6 +1045,28 @@ def _solve(e, st, node, M, R):
     rel = z3.Function('SOLVES_%dd' % r.ndim, m.term.sort(), r.term.sort(), r.term.sort(), z3.BoolSort())
     st.pc.append(rel(m.term, r.term, X))
     return e.new_obj(st, Arr(X, r.shape, 'real'))
+
+
+@prim('np.linalg.inv', 'scipy.linalg.inv')
+def _inv(e, st, node, M):
+    """exact inverse (trusted): a fresh matrix Z related to M by the ghost predicate INVERSE_OF(M, Z)  (M Z = I; used by lemmas/MfptAll.lean)"""
+    m = e.deref(st, M)
+    if not (isinstance(m, Arr) and m.ndim == 2):
+        raise Unsupported('inv form')
+    e.emit(e.site('shape', node), st, m.shape[0] == m.shape[1])
+    Z = e.fresh('inverse', m.term.sort() if m.kind == 'real' else e.arr_sort('real', 2))
+    rel = z3.Function('INVERSE_OF', m.term.sort(), Z.sort(), z3.BoolSort())
+    st.pc.append(rel(m.term, Z))
+    return e.new_obj(st, Arr(Z, m.shape, 'real', meta={'inverse_of': m}))
+
+
+@prim('np.diag')
+def _diag(e, st, node, M):
+    m = e.deref(st, M)
+    if isinstance(m, Arr) and m.ndim == 2:
+        e.emit(e.site('shape', node), st, m.shape[0] == m.shape[1])
+        return e.new_obj(st, e.lam(lambda i: m[i, i], (m.shape[0],), m.kind))
+    raise Unsupported('np.diag form')
 
 
 @prim('warnings.simplefilter')
